@@ -14,8 +14,3 @@ Proof.
   repeat match goal with |- context [if ?c then _ else _] => destruct c end; reflexivity.
 Qed.
 
-(* ---- UTF tables (C11) *)
-From GR Require Import Model.UtfModel Gen.GenUtf.
-Lemma gen_utf_tables_agree : GenUtf.sz_lut = UtfModel.sz_lut /\ GenUtf.mask_lut = UtfModel.mask_lut /\ GenUtf.limit8 = UtfModel.limit
-  /\ GenUtf.limit32 = UtfModel.limit.
-Proof. repeat split; reflexivity. Qed.
